@@ -223,12 +223,23 @@ pub fn ref_sssp(g: &RefGraph, cost: &[f64], allowed: &dyn Fn(usize) -> bool, s: 
     dist
 }
 
-/// number of distinct simple s->t paths, counted up to `cap`
+/// number of distinct simple s->t paths, counted up to `cap`; the depth-first enumeration is
+/// cut off after a fixed number of steps (the count found so far is returned, which keeps
+/// non-triviality claims conservative)
 pub fn count_simple_paths(g: &RefGraph, s: usize, t: usize, cap: usize) -> usize {
-    fn rec(g: &RefGraph, v: usize, t: usize, seen: &mut Vec<bool>, count: &mut usize, cap: usize) {
-        if *count >= cap {
+    fn rec(
+        g: &RefGraph,
+        v: usize,
+        t: usize,
+        seen: &mut Vec<bool>,
+        count: &mut usize,
+        cap: usize,
+        budget: &mut usize,
+    ) {
+        if *count >= cap || *budget == 0 {
             return;
         }
+        *budget -= 1;
         if v == t {
             *count += 1;
             return;
@@ -237,14 +248,20 @@ pub fn count_simple_paths(g: &RefGraph, s: usize, t: usize, cap: usize) -> usize
             let w = g.edges[e].dst;
             if !seen[w] {
                 seen[w] = true;
-                rec(g, w, t, seen, count, cap);
+                rec(g, w, t, seen, count, cap, budget);
                 seen[w] = false;
             }
         }
     }
-    let mut seen = vec![false; g.n];
+    // only vertices that can reach t are worth visiting
+    let can_reach_t = g.reversed().reach(t, &|_| true);
+    if !can_reach_t[s] {
+        return 0;
+    }
+    let mut seen: Vec<bool> = can_reach_t.iter().map(|r| !*r).collect();
     seen[s] = true;
     let mut c = 0;
-    rec(g, s, t, &mut seen, &mut c, cap);
+    let mut budget = 20_000usize;
+    rec(g, s, t, &mut seen, &mut c, cap, &mut budget);
     c
 }
